@@ -131,6 +131,12 @@ func (vc *VC) globalDecls() string {
 			if d.IntResult {
 				res = "Int"
 			}
+			if d.StrResult {
+				res = "Str"
+			}
+			if d.StrsResult {
+				res = "(GSeq Str)"
+			}
 			fmt.Fprintf(&sb, "(declare-fun spec.%s (%s) %s)\n", n, strings.Join(ps, " "), res)
 		}
 		for _, n := range names {
